@@ -3,6 +3,7 @@ import Avfs.Lemmas.WFCreate
 import Avfs.Lemmas.WFCreateCex
 import Avfs.Lemmas.WFRemove
 import Avfs.Lemmas.StepFacts
+import Avfs.Lemmas.WFCheck
 /-
   C05 — the namespace is always a well-formed tree with exact link counts.
   Subject: the MemFS model (Avfs.FS), tied to /repo by `corr memfs*` (results + internal node graph after every call);
@@ -73,6 +74,11 @@ theorem C05_failed_file (s : Store) (v : View) (h : Handle) (op : FOp) (e : Err)
     counterexample on a closed state). -/
 theorem C05_detached_view_witness : ∃ (s : Store) (v : View) (p : Bytes), WF s 0 ∧ ¬ WF (mkdir s v p 0o755).1 0 :=
   ⟨_, _, _, Cex.mkdir_breaks_wf⟩
+
+/-- the executable check is sound: when `wfCheck` (evaluated by the harness on the node graph dumped from the
+    implementation after every call) answers true, the graph satisfies the invariant `WF` and its entry names are valid -/
+theorem C05_wfCheck_sound (s : Store) (root : Ino) (h : wfCheck s root = true) : WF s root ∧ NamesOK s :=
+  wfCheck_sound s root h
 
 -- non-vacuity: the initial state of `memfs.New()` satisfies the executable invariant (test, by evaluation)
 #guard wfCheck initState.store 0
